@@ -52,7 +52,15 @@ Print Assumptions C16_refuted.
       CPython run print exactly the reference run's globals, up to the spare capacity the asp hook reports for a list built by a
       filtered comprehension (ostrip_outcome; CPython has no such thing).  Kept OUT by the reference evaluator: defaults that are
       not scalar literals (evaluated at call time by asp), def inside a function, an argument bound twice, a positional argument
-      after a keyword one, range with a step <= 0, int/bool comparisons inside `in`, dict literals with unsorted keys, += on lists, str() of containers. *)
+      after a keyword one, range with a step <= 0, int/bool comparisons inside `in`, dict literals with unsorted keys, += on lists, str() of containers.
+      THIRD DEEPENING, the same theorem over a larger pure2_run: enumerate, zip on lists of equal length, dict.items() (a list of freshly
+      allocated two-element lists each); `fmt % x` for a string or int x with the verbs %s %d %% (fmt_go); slices l[a:b] of lists (a window of
+      the same array in asp, a copy in CPython - indistinguishable in a fragment that never writes into a list) and of strings without
+      multi-byte runes, when the normalised bounds satisfy 0 <= a <= b; unpacking assignment a, b = e; d | e when the merged keys are
+      again strictly ascending; sorted(l, reverse=...) with the keyword.  Kept out: zip of lists of different length (asp raises, CPython
+      truncates), a slice with a > b or a negative normalised start (asp raises, CPython clamps), % with a list / bool / None on the right,
+      keyword arguments of builtins other than sorted's reverse (CPython names them differently), index assignment (a tree value
+      cannot say which other names alias the list). *)
 Definition C16_partial_statement : Prop :=
   (forall fuel (p : prog) ps,
      in_pure_subset p = true -> pure_run fuel p = Ok ps ->
@@ -193,10 +201,13 @@ Proof. vm_compute. repeat split. Qed.
        m = len(l); r = reversed(l); a = any([0, m]); mx = max(l); so = sorted([3, 1, 2]); u = "-".join([str(i) for i in l])
        d = {"a": 1, "b": 2}; v = d["a"]; w = d.get("c", 7); ks = d.keys(); e = "a" in d
        sp = "a,b".split(","); sw = u.startswith("2-"); up = "ab".upper()
+       (third deepening) en = enumerate(so); zp = zip(so, r); it = d.items(); fm = "n=%d%%" % m; fs = "<%s>" % u; sl = l[1:]; ss = u[:-2]
+       p, q = sp; du = d | {"b": 9, "c": 3}; sr = sorted([3, 1, 2], reverse=True); t2 = 0; for j, k in enumerate(l): t2 += j * k
    is in the fragment and its checked reference run succeeds with the globals below, so both dialects print them; the
    two dialects' raw outputs DIFFER on it (l has spare capacity 1 in asp), which is why the theorem speaks of ostrip_outcome;
    and the side conditions are needed: `d = {"b": 1, "a": 2}; ks = d.keys()` is in the syntactic fragment, the reference run
-   refuses it, and the two dialects differ on it (asp enumerates a dict sorted, CPython in insertion order). *)
+   refuses it, and the two dialects differ on it (asp enumerates a dict sorted, CPython in insertion order); likewise
+   `l = [1, 2, 3]; e = l[2:1]` (asp raises, CPython yields []). *)
 Local Open Scope Z_scope.
 Definition pure2_example : prog :=
   let lit z := Ex (XInt z) [] None in
@@ -233,8 +244,26 @@ Definition pure2_example : prog :=
     (* 5. string methods *)
     SAssign (s "sp") (ve (XMeth (XStr (s "a,b")) (s "split") [st (s ",")]));
     SAssign (s "sw") (ve (XMeth (XIdent (s "u")) (s "startswith") [st (s "2-")]));
-    SAssign (s "up") (ve (XMeth (XStr (s "ab")) (s "upper") [])) ].
+    SAssign (s "up") (ve (XMeth (XStr (s "ab")) (s "upper") []));
+    (* 6. third deepening: enumerate, zip, items, % formatting, slices, unpacking, dict |, a keyword argument of a builtin *)
+    SAssign (s "en") (ve (XCall (s "enumerate") [pa (id (s "so"))]));
+    SAssign (s "zp") (ve (XCall (s "zip") [pa (id (s "so")); pa (id (s "r"))]));
+    SAssign (s "it") (ve (XMeth (XIdent (s "d")) (s "items") []));
+    SAssign (s "fm") (Ex (XStr (s "n=%d%%")) [OBin Mod (XIdent (s "m"))] None);
+    SAssign (s "fs") (Ex (XStr (s "<%s>")) [OBin Mod (XIdent (s "u"))] None);
+    SAssign (s "sl") (ve (XSlice (XIdent (s "l")) (Some (lit 1)) None));
+    SAssign (s "ss") (ve (XSlice (XIdent (s "u")) None (Some (lit (-2)))));
+    SUnpack [s "p"; s "q"] (id (s "sp"));
+    SAssign (s "du") (Ex (XIdent (s "d")) [OBin Union (XDict [(st (s "b"), lit 9); (st (s "c"), lit 3)])] None);
+    SAssign (s "sr") (ve (XCall (s "sorted") [pa (ve (XList [lit 3; lit 1; lit 2])); (Some (s "reverse"), ve XTrue)]));
+    SAssign (s "t2") (lit 0);
+    SFor [s "j"; s "k"] (ve (XCall (s "enumerate") [pa (id (s "l"))])) [SAug (s "t2") (Ex (XIdent (s "j")) [OBin Mul (XIdent (s "k"))] None)] ].
 Local Close Scope Z_scope.
+
+(* l = [1, 2, 3]; e = l[2:1]: asp raises (interpretSlice wants start <= end), CPython yields [] *)
+Definition pure2_badslice : prog :=
+  [ SAssign (s "l") (Ex (XList [Ex (XInt 1%Z) [] None; Ex (XInt 2%Z) [] None; Ex (XInt 3%Z) [] None]) [] None);
+    SAssign (s "e") (Ex (XSlice (XIdent (s "l")) (Some (Ex (XInt 2%Z) [] None)) (Some (Ex (XInt 1%Z) [] None))) [] None) ].
 
 Definition pure2_unsorted : prog :=
   [ SAssign (s "d") (Ex (XDict [(Ex (XStr (s "b")) [] None, Ex (XInt 1%Z) [] None); (Ex (XStr (s "a")) [] None, Ex (XInt 2%Z) [] None)]) [] None);
@@ -244,20 +273,28 @@ Example C16_partial_pure2_nonvacuous :
   in_pure2_subset pure2_example = true
   /\ (match pure2_run FUEL pure2_example with
       | Ok ps => pure2_obs ps =
-          [(s "a", OBool true); (s "d", ODict false [(s "a", OInt 1%Z); (s "b", OInt 2%Z)]); (s "e", OBool true);
-           (s "f", OFunc (s "f")); (s "fact", OFunc (s "fact")); (s "i", OInt 3%Z);
-           (s "ks", OList false 0 [OStr (s "a"); OStr (s "b")]); (s "l", OList false 0 [OInt 2%Z; OInt 4%Z; OInt 6%Z]);
-           (s "m", OInt 3%Z); (s "mx", OInt 6%Z); (s "r", OList false 0 [OInt 6%Z; OInt 4%Z; OInt 2%Z]);
-           (s "so", OList false 0 [OInt 1%Z; OInt 2%Z; OInt 3%Z]);
-           (s "sp", OList false 0 [OStr (s "a"); OStr (s "b")]); (s "sw", OBool true); (s "t", OInt 6%Z);
+          let il (l : list Z) := OList false 0 (map OInt l) in
+          [(s "a", OBool true); (s "d", ODict false [(s "a", OInt 1%Z); (s "b", OInt 2%Z)]);
+           (s "du", ODict false [(s "a", OInt 1%Z); (s "b", OInt 9%Z); (s "c", OInt 3%Z)]); (s "e", OBool true);
+           (s "en", OList false 0 [il [0; 1]; il [1; 2]; il [2; 3]]%Z);
+           (s "f", OFunc (s "f")); (s "fact", OFunc (s "fact")); (s "fm", OStr (s "n=3%")); (s "fs", OStr (s "<2-4-6>")); (s "i", OInt 3%Z);
+           (s "it", OList false 0 [OList false 0 [OStr (s "a"); OInt 1%Z]; OList false 0 [OStr (s "b"); OInt 2%Z]]);
+           (s "j", OInt 2%Z); (s "k", OInt 6%Z);
+           (s "ks", OList false 0 [OStr (s "a"); OStr (s "b")]); (s "l", il [2; 4; 6]%Z);
+           (s "m", OInt 3%Z); (s "mx", OInt 6%Z); (s "p", OStr (s "a")); (s "q", OStr (s "b")); (s "r", il [6; 4; 2]%Z);
+           (s "sl", il [4; 6]%Z); (s "so", il [1; 2; 3]%Z);
+           (s "sp", OList false 0 [OStr (s "a"); OStr (s "b")]); (s "sr", il [3; 2; 1]%Z); (s "ss", OStr (s "2-4"));
+           (s "sw", OBool true); (s "t", OInt 6%Z); (s "t2", OInt 16%Z);
            (s "u", OStr (s "2-4-6")); (s "up", OStr (s "AB")); (s "v", OInt 1%Z); (s "w", OInt 7%Z); (s "x", OInt 3%Z);
-           (s "y", OInt 6%Z); (s "z", OInt 120%Z)]
+           (s "y", OInt 6%Z); (s "z", OInt 120%Z); (s "zp", OList false 0 [il [1; 6]; il [2; 4]; il [3; 2]]%Z)]
       | _ => False
       end)
   /\ list_eqb outcome_eqb (run Asp [] FUEL [pure2_example]) (run Py [] FUEL [pure2_example]) = false
   /\ in_pure_subset pure2_example = false
   /\ in_pure2_subset pure2_unsorted = true /\ is_ok (pure2_run FUEL pure2_unsorted) = false
-  /\ list_eqb outcome_eqb (map ostrip_outcome (run Asp [] FUEL [pure2_unsorted])) (map ostrip_outcome (run Py [] FUEL [pure2_unsorted])) = false.
+  /\ list_eqb outcome_eqb (map ostrip_outcome (run Asp [] FUEL [pure2_unsorted])) (map ostrip_outcome (run Py [] FUEL [pure2_unsorted])) = false
+  /\ in_pure2_subset pure2_badslice = true /\ is_ok (pure2_run FUEL pure2_badslice) = false
+  /\ list_eqb outcome_eqb (map ostrip_outcome (run Asp [] FUEL [pure2_badslice])) (map ostrip_outcome (run Py [] FUEL [pure2_badslice])) = false.
 Proof. vm_compute. repeat split. Qed.
 
 (* ... and of conjunct 8, the two regression scenarios of /repo 3ce4752: l = [x for x in range(3, 2)] is [] and
